@@ -61,12 +61,14 @@ def make_post(name):
         got = numpy.asarray(result)
         good = got.shape == numpy.asarray(exp).shape and bool((got.astype(bool) == exp).all())
         sub = "%s:%dD" % (name, pts.ndim)
-        ctx.check(good, sub, lambda: {"M": M.tolist(), "points": pts.tolist(), "got": got.tolist(), "expected": numpy.asarray(exp).tolist(),
+        ctx.check(good, sub, lambda: {"M": M.tolist(), "points": pts.tolist() if pts.size <= 400 else "%d points (see case)" % pts.size, "points_dtype": str(numpy.asarray(args[1] if len(args) > 1 else kwargs.get("points")).dtype),
+                                      "got": got.tolist() if got.size <= 400 else "...", "expected": numpy.asarray(exp).tolist() if numpy.asarray(exp).size <= 400 else "...",
                                       "got_shape": list(got.shape), "expected_shape": list(numpy.asarray(exp).shape)})
         e = numpy.asarray(exp).reshape(-1)
         if e.any() and not e.all():
-            ctx.nt(monitor.digest([name, M.tolist(), pts.tolist()]))
-        ctx.sample({"function": name, "M": M.tolist(), "points": pts.tolist(), "result": got.tolist()}, cap=6)
+            ctx.nt(monitor.digest([name, M.tolist(), pts.tolist() if pts.size <= 400 else [pts.shape, int(pts.sum())]]))
+        if pts.size <= 200:
+            ctx.sample({"function": name, "M": M.tolist(), "points": pts.tolist(), "result": got.tolist()}, cap=6)
         return True
     return post
 
@@ -120,12 +122,38 @@ def gen_case(rng, tier, ctx, i):
                 row[k_] = rng.choice([-3, -1, 1, 3])
             row[0] = int(sum(int(a) * int(x) for a, x in zip(row[1:], flat[0]))) + rng.choice([0, 1])
         p.pop("dtype", None)
-    return {"poly": p, "points": pts, "fn": rng.choice(FUNCS), "via": rng.choice(["method", "alias"])}
+    case = {"poly": p, "points": pts, "fn": rng.choice(FUNCS), "via": rng.choice(["method", "alias"])}
+    flat_vals = numpy.array(pts, dtype=object).reshape(-1).tolist()
+    if rng.random() < 0.3:
+        # integer points stored in a narrower or unsigned integer type (where every coordinate fits)
+        fits = [t for t in ("int8", "uint8", "int16", "uint16", "int32", "uint32")      # not uint64: numpy promotes int64 x uint64 to float64, a numpy rule outside the statement
+                if all(numpy.iinfo(t).min <= v <= numpy.iinfo(t).max for v in flat_vals)]
+        if fits:
+            case["points_dtype"] = rng.choice(fits)
+    if rng.random() < 0.04 and nd >= 2:
+        # a long list of points whose only violators come late
+        k = rng.choice([2049, 2500, 4097, 5000])
+        ok_pt = [0] * n
+        row = p["M"][0]
+        row[0] = min(0, int(row[0]))
+        for r_ in p["M"]:
+            r_[0] = min(0, int(r_[0]))                     # the origin satisfies every row
+        bad = [0] * n
+        j = next((j_ for j_ in range(n) if row[1 + j_] != 0), None)
+        if j is not None:
+            bad[j] = -3 if row[1 + j] > 0 else 3
+            row[0] = 0
+            many = [list(ok_pt) for _ in range(k)]
+            many[rng.choice([k - 1, k - 1, 2048, k - 2])] = bad
+            case["points"] = many if nd == 2 else [many, [list(ok_pt)] * k][:rng.randint(1, 2)]
+            case.pop("points_dtype", None)
+            p.pop("dtype", None)
+    return case
 
 
 def run_case(case, ctx):
     P = polygen.build_poly(case["poly"])
-    pts = numpy.array(case["points"], dtype=numpy.int64)
+    pts = numpy.array(case["points"], dtype=getattr(numpy, case.get("points_dtype", "int64")))
     fn = case["fn"]
     if case["via"] == "alias" and fn != "ineqs_satisfied":
         ctx.call(fn, getattr(pnd, fn), P, pts)
